@@ -428,7 +428,11 @@ def C20(infos: List[EnumInfo], ctx: dict):
         if p in reach:
             sites += G.panic_sites(gen, f)
     by_key: Dict[str, List[G.Site]] = {}
+    n_auto = 0
     for s in sites:
+        if s.auto:
+            n_auto += 1
+            continue
         by_key.setdefault(G.norm_key(s.key()), []).append(s)
     n_I = 0
     for k, ss in sorted(by_key.items()):
@@ -447,7 +451,7 @@ def C20(infos: List[EnumInfo], ctx: dict):
             observations.append({"site": k, "fn": gen.short(ss[0].fn), "reason": reason})
         else:
             n_I += len(ss)
-        if cls != "L" and len(ss) > mx:
+        if cls != "L" and len(ss) > mx and k in G.GUARDED:
             s = ss[-1]
             out.append(Violation("C20", "G1: no more instances of a vetted site shape than were vetted", "C20:panic-site-count:%s" % k,
                                  "%d sites of shape %s (vetted: %d), e.g. %s in %s" % (len(ss), k, mx, s.text, gen.short(s.fn)), {"generator_fn": s.fn, "at": s.at, "sites": [(gen.short(x.fn), x.at) for x in ss]}))
@@ -490,7 +494,7 @@ def C20(infos: List[EnumInfo], ctx: dict):
                           "G2: every expression of type Result<_, syn::Error> that flows into ok()/unwrap_or*/is_ok/if-let-Ok/unused is a dropped error unless vetted; G3: each entry point parses with parse_macro_input! and converts the single inner Result with unwrap_or_else(|e| e.to_compile_error()); "
                           "W: one must-fail cargo example per (rule, derive) with a compiling twin differing only by the offending construct; a must-fail witness needs an error without rustc error code (a compile_error! from the macro), no 'panicked', and a span inside the offending item.",
            "evaluations": len(sites) + len(drops) + 2 * wstats["witnesses"] + n_entries, "distinct_nontrivial": len(rules) + len(by_key),
-           "entry_points": n_entries, "functions_reachable": len(reach), "panic_sites": len(sites), "panic_site_shapes": len(by_key), "panic_sites_class_I": n_I,
+           "entry_points": n_entries, "functions_reachable": len(reach), "panic_sites": len(sites), "panic_site_shapes": len(by_key), "panic_sites_class_I": n_I, "panic_sites_infeasible_by_shape": n_auto,
            "dropped_result_sites": len(drops), "dropped_result_vetted": sum(1 for s in drops if s.key() in G.VETTED_DROPS),
            "witnesses": wstats["witnesses"], "witnesses_rejected_as_required": n_fail_ok, "witness_rule_x_derive": len(rules), "samples": samples,
            "observations_outside_listed_rules": observations,
